@@ -257,7 +257,18 @@ pub fn run(args: &Args) -> i32 {
         p.max_round = std::time::Duration::from_micros(10 * 67);
         p.grace = std::time::Duration::from_micros(1);
         p.packet_size = if cell.v6 { 96 } else { 84 };
-        tasks.push((Task { cell: *cell, topo: "silent-all", params: p, bound: 0 }, false));
+        tasks.push((Task { cell: *cell, topo: "silent-all", params: p.clone(), bound: 0 }, false));
+        // the same from the highest accepted initial sequence: the allocator passes its wrap
+        // threshold in the middle of a round and restarts between rounds - still n rounds and Ok
+        let mut q = p;
+        q.initial_sequence = 64511;
+        q.rounds = 12;
+        // 60 probes per round: 512 is not a multiple, so the threshold falls inside round 8
+        q.max_ttl = 60;
+        q.max_inflight = 60;
+        q.min_round = std::time::Duration::from_micros(10 * 63);
+        q.max_round = std::time::Duration::from_micros(10 * 63);
+        tasks.push((Task { cell: *cell, topo: "silent-all", params: q, bound: 0 }, false));
     }
     let agg = Mutex::new(Agg::default());
     let max_points = 600;
@@ -354,7 +365,7 @@ pub fn run(args: &Args) -> i32 {
     rep.set("horizon_hits", json!(a.stats.horizon_hits));
     rep.set("determinism_replays", json!(a.replays));
     rep.observe("faults_by_class_and_call", json!(a.by_class));
-    rep.set("rule", json!(format!("9 configurations x round limit {{1,2,3}} x path {{L1,L2}}: every socket call of the run (send_to, bind, connect, select, read/recv_from, and for TCP probe sockets take_error, peer_addr, shutdown) is a fault position with the errno menu send{{EHOSTUNREACH,ENETUNREACH,EINVAL,EIO}} bind{{EADDRINUSE,EADDRNOTAVAIL,EACCES}} connect{{EADDRINUSE,ENETUNREACH,EHOSTUNREACH,ECONNREFUSED}} recv{{EAGAIN,EIO}} select{{EIO}} take_error/peer_addr/shutdown of a TCP probe socket{{EIO}}; ALL executions with <= {k} faults, alone and combined with one scheduling deviation (delay/loss). Oracle from the statement: no fatal fault => Ok and exactly n rounds with ids 0..n-1; transient => exactly that slot Failed; address-in-use (tcp) => slot Skipped, same TTL re-issued under the next sequence; fatal => run returns that error, no further round, error visible in the snapshot. distinct_nontrivial = distinct (published rounds, result, fault list) digests")));
+    rep.set("rule", json!(format!("9 configurations x round limit {{1,2,3}} x path {{L1,L2}}: every socket call of the run (send_to, bind, connect, select, read/recv_from, and for TCP probe sockets take_error, peer_addr, shutdown) is a fault position with the errno menu send{{EHOSTUNREACH,ENETUNREACH,EINVAL,EIO}} bind{{EADDRINUSE,EADDRNOTAVAIL,EACCES}} connect{{EADDRINUSE,ENETUNREACH,EHOSTUNREACH,ECONNREFUSED}} recv{{EAGAIN,EIO}} select{{EIO}} take_error/peer_addr/shutdown of a TCP probe socket{{EIO}}; ALL executions with <= {k} faults, alone and combined with one scheduling deviation (delay/loss). Oracle from the statement: no fatal fault => Ok and exactly n rounds with ids 0..n-1; transient => exactly that slot Failed; address-in-use (tcp) => slot Skipped, same TTL re-issued under the next sequence; fatal => run returns that error, no further round, error visible in the snapshot. + silent paths with 64 probes per round: 6 rounds from the default and 12 rounds from the highest accepted initial sequence (the sequence passes its wrap threshold mid-round). distinct_nontrivial = distinct (published rounds, result, fault list) digests")));
     for s in a.samples {
         rep.sample(s);
     }
